@@ -121,7 +121,11 @@ def _tree(args: argparse.Namespace):
 
         if "codebase" in analysis_toml:
             if "exclude" in analysis_toml["codebase"]:
-                args.excludes += analysis_toml["codebase"]["exclude"]
+                # Patterns are ordered (the last match wins): the ones given
+                # with -x come after the analysis file's own.
+                args.excludes = (
+                    analysis_toml["codebase"]["exclude"] + args.excludes
+                )
 
         for name in args.platforms:
             if name not in analysis_toml["platform"].keys():
